@@ -22,6 +22,9 @@ Expected(r) ==
        LET e == Kinds[r.entries[j]]  s == Single[r.entries[j]] IN
        Len(s.devs) = 1 /\ s.devs[1].kbd /\ ~IsVirtual(e) /\ ~Excluded(NameOf(e), r.excludes)}}
 ToSetOf(s) == {s[i]: i \in 1..Len(s)}
+ListedExpected(r) ==
+  {NodeOf(r, Kinds[r.entries[i]].sysfs): i \in {j \in 1..Len(r.entries):
+       LET e == Kinds[r.entries[j]]  s == Single[r.entries[j]] IN Len(s.devs) = 1 /\ s.devs[1].kbd /\ ~IsVirtual(e)}}
 Verdict(r) ==
   (IF r.panicked THEN {"C16-binary-panics"} ELSE {})
   \cup (IF \E i \in 1..Len(r.entries): IsVirtual(Kinds[r.entries[i]]) /\ NodeOf(r, Kinds[r.entries[i]].sysfs) \in ToSetOf(r.sel_all) \cup ToSetOf(r.sel_dev)
@@ -31,6 +34,11 @@ Verdict(r) ==
         THEN {"C16-excluded-device-selected"} ELSE {})
   \cup (IF ToSetOf(r.sel_all) # Expected(r) THEN {"C16-selection-all-keyboards"} ELSE {})
   \cup (IF r.nodes # <<>> /\ ToSetOf(r.sel_dev) # Expected(r) THEN {"C16-selection-dev-file"} ELSE {})
+  \* whichever way the device is named: through a symlink under /dev/input/by-id, or with a doubled slash
+  \cup (IF r.nodes # <<>> /\ ToSetOf(r.sel_alt) # Expected(r) THEN {"C16-selection-dev-file-by-other-name"} ELSE {})
+  \cup (IF r.nodes # <<>> /\ r.n_alt # Len(r.sel_alt) THEN {"C16-selected-count"} ELSE {})
+  \* list_keyboards shows every keyboard outside the virtual tree (exclusion does not apply there)
+  \cup (IF ToSetOf(r.listed) # ListedExpected(r) THEN {"C16-list_keyboards"} ELSE {})
   \cup (IF r.n_all # Len(r.sel_all) \/ (r.nodes # <<>> /\ r.n_dev # Len(r.sel_dev)) THEN {"C16-selected-count"} ELSE {})
 Judge(i) == LET r == Res[i]  v == Verdict(r) IN
             v # {} => PrintT(<<IF v \subseteq KnownIds THEN "KNOWN" ELSE "BAD", r.id, v>>)
